@@ -1,8 +1,9 @@
 import Driver.Util
 import Driver.C08
+import Driver.C09
 open Drv
 
-def handlers : List (String → Handler) := [Drv.C08.handle]
+def handlers : List (String → Handler) := [Drv.C08.handle, Drv.C09.handle]
 
 def answer (line : String) : String :=
   let (lhs, impl) := match line.trimAscii.toString.splitOn " => " with
